@@ -253,3 +253,72 @@ Proof.
     destruct Hp as (_ & _ & Hb). rewrite (scatter_length 0 Rplus _ ng A (tsize sp)); rewrite LA; [reflexivity|exact Hb].
   - constructor; [|constructor]. apply (ew2_length sp fw_subtract S1 PK HBp).
 Qed.
+
+(* ================================================================== element-level readings (used by Tensor/AdjDeriv.v) *)
+Definition gsum (h : nat -> R) (g : list nat) : R := fold_right (fun s acc => h s + acc) 0 g.
+Lemma fold_left_gsum (h : nat -> R) g : fold_left Rplus (map h g) 0 = gsum h g.
+Proof.
+  rewrite (fold_left_sum R 0 Rplus (r_add_comm 0 1 Rplus Rmult Rminus Ropp RTheory) (r_add_assoc 0 1 Rplus Rmult Rminus Ropp RTheory)
+             (r_add_0_l 0 1 Rplus Rmult Rminus Ropp RTheory)).
+  rewrite Rplus_0_l. unfold gsum. induction g as [|s g IH]; cbn [map ProofsBilinear.sum_list fold_right]; [reflexivity|].
+  fold (ProofsBilinear.sum_list R 0 Rplus (map h g)). rewrite IH. reflexivity.
+Qed.
+Lemma gsum_ext h h' g : (forall s, In s g -> h s = h' s) -> gsum h g = gsum h' g.
+Proof. induction g as [|s g IH]; intro H; cbn [gsum fold_right]; [reflexivity|]. fold (gsum h g) (gsum h' g). rewrite (H s (or_introl eq_refl)), IH; [reflexivity|]. intros; apply H; right; assumption. Qed.
+
+Section AxisFacts.
+  Variables (sx sy : tshape) (dim : nat).
+  Hypothesis Hok : sum_ok sx sy dim = true.
+  Let p := axis_red sx sy dim.
+
+  Lemma axis_seq : sequential p (tsize sy).
+  Proof. apply (sum_ok_red sx sy dim Hok). Qed.
+  Lemma axis_nth_fst i : (i < length p)%nat -> fst (nth i p (0%nat, [])) = i.
+  Proof.
+    intro Hi. pose proof axis_seq as Hs. unfold sequential in Hs.
+    rewrite <- (map_nth fst p (0%nat, []) i). cbn [fst]. rewrite Hs. apply seq_nth. rewrite <- (sequential_length p _ axis_seq). exact Hi.
+  Qed.
+  Lemma axis_group_ok e : In e p -> snd e <> [] /\ forall s, In s (snd e) -> (s < tsize sx)%nat.
+  Proof.
+    intro He. split.
+    - unfold p, axis_red in He. apply in_map_iff in He. destruct He as (i & <- & _). cbn [snd].
+      assert (Hn : (0 < tget sx dim)%nat) by (pose proof Hok as H; unfold sum_ok in H; bsplit; assumption).
+      unfold range. destruct (tget sx dim); [lia|]. cbn [seq map]. discriminate.
+    - destruct (sum_ok_red sx sy dim Hok) as (_ & Hb). unfold red_in_bounds in Hb. rewrite Forall_forall in Hb.
+      specialize (Hb e He). rewrite Forall_forall in Hb. exact Hb.
+  Qed.
+  Lemma axis_sum_nth (u : list R) e : In e p -> nth (fst e) (axis_sum sx sy dim u) 0 = gsum (fun s => nth s u 0) (snd e).
+  Proof. intro He. unfold axis_sum. fold p. rewrite (scatter_red_acc p (tsize sy) u e axis_seq He). apply fold_left_gsum. Qed.
+  Lemma bcast_is_transposed : broadcast_fw sy sx dim (tget sx dim) = red_transposed p.
+  Proof.
+    pose proof Hok as H. unfold sum_ok in H. bsplit. apply (broadcast_is_transposed_sum sx sy dim (tlower sx dim) (tget sx dim) (tsize sy / tlower sx dim)); auto.
+  Qed.
+  Lemma bcast_nth (v : list R) e s : In e p -> In s (snd e) -> nth s (bcast sx sy dim v) 0 = nth (fst e) v 0.
+  Proof.
+    intros He Hs. unfold bcast.
+    destruct (sum_ok_pair sx sy dim Hok) as (_ & Hcov & _).
+    apply (gather_nth 0 _ _ v s 0%nat (fst e) Hcov). rewrite bcast_is_transposed. unfold red_transposed.
+    apply in_flat_map. exists e. split; [exact He|]. apply in_map_iff. exists s. split; [reflexivity|exact Hs].
+  Qed.
+  Lemma lse_vals_nth (x : list R) e : In e p -> nth (fst e) (lse_vals sx sy dim x) 0 = lse_fold (gvals x (snd e)).
+  Proof.
+    intro He. unfold lse_vals. fold p.
+    assert (Hseq' : map fst p = seq 0 (length p)) by (rewrite (sequential_length p _ axis_seq); exact axis_seq).
+    pose proof (seq_nth_map (fun e : nat * list nat => lse_fold (gvals x (snd e))) 0 p 0%nat Hseq' e He) as E.
+    rewrite Nat.sub_0_r in E. exact E.
+  Qed.
+  (* log_softmax and softmax, element s of the group e *)
+  Lemma log_softmax_nth (x : list R) e s : In e p -> In s (snd e) ->
+    nth s (log_softmax_v sx sy dim x) 0 = nth s x 0 - lse_fold (gvals x (snd e)).
+  Proof.
+    intros He Hs. assert (HB : (0 < tbatch sx)%nat) by (pose proof Hok as H; unfold sum_ok in H; bsplit; assumption).
+    unfold log_softmax_v. rewrite ew2_nth by (try exact HB; apply (proj2 (axis_group_ok e He) s Hs)).
+    rewrite (bcast_nth _ e s He Hs), (lse_vals_nth x e He). reflexivity.
+  Qed.
+  Lemma softmax_nth (x : list R) e s : In e p -> In s (snd e) ->
+    nth s (softmax_v sx sy dim x) 0 = exp (nth s x 0 - lse_fold (gvals x (snd e))).
+  Proof.
+    intros He Hs. unfold softmax_v. rewrite (un_eval_nth 0 fw_exp) by (apply (proj2 (axis_group_ok e He) s Hs)).
+    rewrite (log_softmax_nth x e s He Hs). reflexivity.
+  Qed.
+End AxisFacts.
